@@ -50,7 +50,7 @@ impl Monitor for C05 {
         let (name, cfg) = pick_family(r, FAMILIES);
         // shaped family: a soft requirement whose run learns clauses and is rejected afterwards,
         // followed by further soft requirements (learnt clauses outlive the rejected attempt)
-        let (name, (u, p)) = if r.chance(1, 30) { ("conflict-chain", gener::conflict_chain(r)) } else if r.chance(1, 10) { ("soft-backjump", gener::soft_backjump(r)) } else if r.chance(1, 6) { ("soft-learn-reject", gener::soft_learn_reject(r)) } else { (name, gener::generate(r, &cfg)) };
+        let (name, (u, p)) = if r.chance(1, 25) { ("union-abandon", gener::union_abandon(r)) } else if r.chance(1, 30) { ("conflict-chain", gener::conflict_chain(r)) } else if r.chance(1, 10) { ("soft-backjump", gener::soft_backjump(r)) } else if r.chance(1, 6) { ("soft-learn-reject", gener::soft_learn_reject(r)) } else { (name, gener::generate(r, &cfg)) };
         SolverCase { family: name.into(), u, p, runs: standard_runs(r, 1) }
     }
     fn check(&self, c: &SolverCase, ctx: &mut Ctx) {
